@@ -24,7 +24,7 @@ def _plain(name: str):
 _FALSY = {
     "o1": Literal(""), "o2": Literal(0), "o3": Literal(False), "o4": Literal(0.0),
     "l1": Literal(""), "l2": Literal(0), "l3": Literal(False),
-    "m1": Literal(""), "m2": Literal(0), "m3": Literal(False), "z": Literal(0),
+    "m1": Literal(""), "m2": Literal(0), "m3": Literal(False), "z": Literal(0.0),
 }
 _HOSTILE = {
     "o1": Literal('ends with quote"'), "o2": Literal("back\\slash\\"), "o3": Literal('tri"""ple\n\r\t'),
